@@ -62,7 +62,8 @@ def event_rv(item):
                   'listing_connection_errors_return', 'other_failures_propagate', 'pause_stops_watching', 'frame',
                   'watch_request', 'watch_resumes_from_since', 'watch_closed_on_pause', 'watch_events_passed_through',
                   'watch_disconnects_end_silently', 'watch_asks_for_bookmarks', 'watch_timeouts_from_settings',
-                  'watch_inactivity_timeout', 'watch_inactivity_window_restarts_per_event'],
+                  'watch_inactivity_timeout', 'watch_inactivity_window_restarts_per_event',
+                  'inactivity_timer_not_armed_while_the_consumer_works'],
          canaries=['canary.always_lists_ok', 'canary.never_raises', 'canary.every_event_yielded', 'canary.version_never_moves',
                    'canary.watch_never_raises'],
          trusted=['fetching.list_objs: one list request; returns (objects, resourceVersion | None) or raises',
@@ -133,17 +134,21 @@ def _w1_watch_objs(vc):
         deadline (loop time); expiry raises TimeoutError into the body (modelled as an exception of the stream)."""
         def __init__(self, delay):
             vc.emit('timeout.created', delay)
+            self.delay = delay
 
         async def __aenter__(self):
             vc.emit('timeout.enter')
+            ghost['deadline'] = 'armed' if self.delay is not None else None
             return self
 
         async def __aexit__(self, et, e, tb):
             vc.emit('timeout.exit')
+            ghost['deadline'] = None
             return False
 
         def reschedule(self, when):
             vc.emit('reschedule', when)
+            ghost['deadline'] = None if when is None else 'armed'
 
     async def element(loc, iterable):
         vc.ensure('watch_request', iterable is ghost['stream'])
@@ -175,6 +180,12 @@ def _w1_watch_objs(vc):
     async def consume(agen):
         async for item in agen:
             vc.emit('yield', item)
+            if tracks_inactivity:
+                # asyncio.timeout cancels the TASK that entered it, wherever that task waits when the deadline passes: while
+                # the generator is suspended at its `yield` that is the consumer (queueing.watcher) -- whose CancelledError
+                # does not pass through the `async with` and ends the watcher for good.  The consumer's time is not
+                # inactivity of the stream: no deadline may be pending while an event is with the consumer.
+                vc.ensure('inactivity_timer_not_armed_while_the_consumer_works', ghost.get('deadline') is None)   # F-C19-7 (fixed in repo fd2ac8a) was found here
             await suspend('consumer')
     vc.used('api.stream', 'trusted'); vc.used('asyncio.timeout', 'trusted')
     ld = vc.load('kopf._cogs.clients.watching', 'watch_objs', stubs={
